@@ -139,6 +139,10 @@ func cnBad() []byte {
 	return h.Serialize()
 }
 
+// lateGate: the first request after a termination is made while finish() still holds the reader lock
+// (true) or well after the exit path has completed (false)
+var lateGate = true
+
 func runCN(id int, c *cnCase, via string) cnLine {
 	l := cnLine{Ev: "cn", ID: id, Via: via, Sched: c.Sched, Steps: []cnStep{}, InOrder: true, Events: []cnEvent{}, Conform: true}
 	lg := &evlog{exitCh: make(chan struct{}, 1)}
@@ -312,6 +316,9 @@ func runCN(id int, c *cnCase, via string) cnLine {
 				select {
 				case <-lg.exitCh:
 				case <-time.After(20 * time.Millisecond):
+				}
+				if !lateGate {
+					time.Sleep(2 * time.Millisecond) // the exit path (a few microseconds after the gate) is over
 				}
 				exitSeen = true
 			}
@@ -597,7 +604,25 @@ func CloseNotify(a Args) error {
 		if c.Via != "" {
 			via = c.Via
 		}
+		lateGate = true
 		out.Emit(runCN(id, &c, via))
+		// a schedule with a request after the termination is run twice: overlapping the exit path, and after it
+		late := false
+		for i, ev := range c.Sched {
+			if ev == "cn" && i > 0 {
+				for _, p := range c.Sched[:i] {
+					if p != "cn" && p != "m" && p != "mh" && p != "mm" && p != "m1" && p != "m2" {
+						late = true
+					}
+				}
+			}
+		}
+		if late {
+			id++
+			lateGate = false
+			out.Emit(runCN(id, &c, via))
+			lateGate = true
+		}
 		return nil
 	})
 	if err != nil {
